@@ -67,6 +67,23 @@ class ExecModels(Models):
             return none()
         ins(r"Instant::checked_duration_since", checked_duration_since)
 
+        # Duration comparisons on the integer nanoseconds
+        def dur_cmp(op):
+            def f(c, m, a):
+                x, y = nanos(a[0]).z(), nanos(a[1]).z()
+                return SBool(z3.simplify({"lt": x < y, "le": x <= y, "gt": x > y, "ge": x >= y, "eq": x == y, "ne": x != y}[op]))
+            return f
+        for op in ("lt", "le", "gt", "ge", "eq", "ne"):
+            ins(r"<Duration as PartialOrd>::%s|<Duration as PartialEq>::%s" % (op, op), dur_cmp(op))
+
+        def dur_minmax(which):
+            def f(c, m, a):
+                x, y = nanos(a[0]).z(), nanos(a[1]).z()
+                return dur(mk_int(z3.If((x <= y) if which == "min" else (x >= y), x, y), "nat"))
+            return f
+        ins(r"<Duration as Ord>::min|std::cmp::min::<Duration>", dur_minmax("min"))
+        ins(r"<Duration as Ord>::max|std::cmp::max::<Duration>", dur_minmax("max"))
+
         def opt_and_then_fork(c, m, a):
             o = a[0]
             if isinstance(o, SymOpt):
